@@ -6,6 +6,7 @@ mod docgen;
 mod driver;
 mod engines;
 mod frontends;
+mod hostile;
 mod rng;
 mod seam;
 mod simio;
@@ -104,6 +105,20 @@ fn main() {
                 let env = worker_env(t);
                 let scn = e.generate(seed, args[4].parse().unwrap_or(0), t, &env);
                 println!("{}", serde_json::to_string_pretty(&scn).unwrap());
+                0
+            }
+            _ => usage(),
+        },
+        Some("exec") if args.len() >= 5 => match (engines::lookup(&args[2]), Tier::parse(&args[3])) {
+            // debugging aid: generate run <index> and execute it in this process (no containment)
+            (Some(e), Some(t)) => {
+                let seed = driver::env_u64("VERIF_SEED").unwrap_or(1);
+                let env = worker_env(t);
+                let _ = std::fs::create_dir_all(&env.scratch);
+                frontends::install_panic_hook();
+                let scn = e.generate(seed, args[4].parse().unwrap_or(0), t, &env);
+                let r = e.execute(&scn, &env);
+                println!("{}", serde_json::to_string_pretty(&r).unwrap());
                 0
             }
             _ => usage(),
